@@ -232,6 +232,8 @@ type Outcome struct {
 	SearchWall   time.Duration
 	Samples      []interface{}
 	ShrinkEvals  int
+	Confirmations []string
+	Unconfirmed   []string
 }
 
 // oneEval runs a single tape (or seeded index) in a fresh-or-reused dedicated worker and converts a
@@ -477,16 +479,32 @@ func (s *Supervisor) Minimise(o *Outcome, key string, budget time.Duration) (str
 		tp = nil
 		minimised = true
 	} else if tp != nil {
-		if !test(tp) {
+		ok := test(tp)
+		for k := 0; !ok && k < 4 && s.Prop.Engine == "G"; k++ {
+			ok = test(tp)
+		}
+		if !ok {
+			if s.Prop.Engine == "G" {
+				return "", nil, &errUnconfirmed{key: key, attempts: 5}
+			}
 			return "", nil, fmt.Errorf("divergence: tape of run %d does not reproduce %s when replayed", first.Index, key)
 		}
 		tp = Shrink(tp, test, budget)
 		minimised = true
 	}
 
-	// confirm 3/3 in fresh processes
+	// Confirm in fresh processes. Engines S and F own every choice, so a run must reproduce 3/3;
+	// anything else is a simulator bug (infrastructure trouble). In Engine G goroutine order between
+	// quiescent points and select among ready cases belong to the Go runtime: a failure that
+	// reproduces at least once in 5 fresh attempts is reported (its oracle is schedule independent);
+	// one that never reproduces is recorded as an unconfirmed observation and is not an alarm.
 	var last *Result
-	for i := 0; i < 3; i++ {
+	attempts, need := 3, 3
+	if s.Prop.Engine == "G" {
+		attempts, need = 5, 1
+	}
+	got := 0
+	for i := 0; i < attempts; i++ {
 		ev.close()
 		var res *Result
 		var err error
@@ -500,11 +518,22 @@ func (s *Supervisor) Minimise(o *Outcome, key string, budget time.Duration) (str
 		if err != nil {
 			return "", nil, err
 		}
-		if !hasKey(res, key) {
-			return "", nil, fmt.Errorf("divergence: minimised tape for %s reproduced %d/3 times only", key, i)
+		if hasKey(res, key) {
+			got++
+			last = res
+			if s.Prop.Engine != "G" || got >= 2 {
+				if got >= need && s.Prop.Engine == "G" {
+					break
+				}
+			}
+		} else if s.Prop.Engine != "G" {
+			return "", nil, fmt.Errorf("divergence: minimised run for %s reproduced %d/%d times only", key, got, i+1)
 		}
-		last = res
 	}
+	if got < need {
+		return "", nil, &errUnconfirmed{key: key, attempts: attempts}
+	}
+	o.Confirmations = append(o.Confirmations, fmt.Sprintf("%s reproduced %d/%d", key, got, attempts))
 	f := findFailure(last, key)
 	rf := &ReplayFile{Property: s.Prop.ID, Engine: s.Prop.Engine, Tier: s.Tier, Seed: s.Seed,
 		RunIndex: first.Index, Minimised: minimised, Tape: tp, Script: script, Violation: f, Log: last.Log,
@@ -650,6 +679,16 @@ func Shrink(tp []uint32, test func([]uint32) bool, budget time.Duration) []uint3
 		}
 	}
 	return cur
+}
+
+// errUnconfirmed: an Engine G failure that did not reproduce in any fresh process.
+type errUnconfirmed struct {
+	key      string
+	attempts int
+}
+
+func (e *errUnconfirmed) Error() string {
+	return fmt.Sprintf("%s did not reproduce in %d fresh processes", e.key, e.attempts)
 }
 
 // ShrinkScript minimises a failing script by deleting operations (ddmin style); element 0 (the
